@@ -124,4 +124,12 @@ example : typeInstr false (.seq [.AND, .PUSH .nat (.num .nat 3), .LSL]) [.int, .
 example : typeInstr false .SUB_MUTEZ [.mutez, .mutez] = some (.ok [.option .mutez]) := by
   simp [typeInstr, Typing.step, subMutezTy]
 
+-- sets and maps
+example : typeInstr false (.seq [.EMPTY_SET .nat, .PUSH .bool (.bool true), .PUSH .nat (.num .nat 5), .UPDATE, .PUSH .nat (.num .nat 1), .MEM]) []
+    = some (.ok [.bool]) := by rfl
+example : typeInstr false .GET_AND_UPDATE [.string, .option .nat, .map .string .nat] = some (.ok [.option .nat, .map .string .nat]) := by rfl
+example : typeInstr false .GET [.string, .map .int .nat] = none := by rfl
+example : StackTy [C01.mapAB, C01.set13] [.map .string .nat, .set .int] :=
+  .cons (by rfl) (.cons (by rfl) .nil)
+
 end C02
